@@ -124,7 +124,7 @@ func srvRespBytes() []byte {
 	return ttlv.MarshalTTLV(&msg)
 }
 
-const srvEncVariants = 5
+const srvEncVariants = 6
 const srvPlainVariants = 2
 
 // framed, undecodable with a ttlv.ErrEncoding
@@ -149,6 +149,12 @@ func srvEncBytes(variant int) []byte {
 			0x42, 0x00, 0x6A, 0x02, 0, 0, 0, 4, 0, 0, 0, 1, 0, 0, 0, 0,
 			0x42, 0x00, 0x6B, 0x02, 0, 0, 0, 4, 0, 0, 0, 4,
 			0, 0, 0, 0}
+	case 5: // a message under the Response Message tag whose content does not decode (its header is a text string)
+		enc := ttlv.NewTTLVEncoder()
+		enc.Struct(kmip.TagResponseMessage, func(e *ttlv.Encoder) {
+			e.TextString(kmip.TagResponseHeader, "not a header")
+		})
+		return enc.Bytes()
 	default: // request message with a missing batch item payload and a wrong batch count type
 		enc := ttlv.NewTTLVEncoder()
 		enc.Struct(kmip.TagRequestMessage, func(e *ttlv.Encoder) {
